@@ -19,7 +19,7 @@ RULE = ("Sub 'laws': triples (a,b,c) drawn from a small generated pool over the 
         ">2^64, float incl. +-inf/-0.0, Decimal, bytes, str, date, datetime, time, nested lists/tuples); checks on petl's "
         "Comparable: irreflexive, asymmetric, transitive, transitive incomparability, equivalence <=> ==, <=/>/>= consistent "
         "with < and == (also against an unwrapped scalar right operand), and agreement of every pair with the independently "
-        "written ordering pv/order.py. Sub 'triples-exhaustive' (thorough): all triples of a 45-value representative set. "
+        "written ordering pv/order.py. Sub 'triples-exhaustive' (thorough): all triples of a 50-value representative set. "
         "Sub 'consumers': sort output order, issorted (all key/reverse/strict forms), the ordered selectors and the six "
         "sort-merge joins (output keys ascending, rows paired exactly by the ordering's equivalence) vs the reference "
         "ordering on generated tables. Non-trivial = the values span >=2 rank classes, or include a nested "
@@ -34,12 +34,15 @@ REP = [None, False, True, 0, 1, -1, 2, 2 ** 70, 0.0, -0.0, 1.0, 2.5, float("inf"
        Decimal("2.5"), Decimal("-3"), b"", b"a", b"b", "", "a", "b", "B", "1", "\xe9", dt.date(2020, 1, 1),
        dt.date(2020, 1, 2), dt.datetime(2020, 1, 1, 0, 0), dt.datetime(2020, 1, 1, 12), dt.time(0, 0), dt.time(12, 30),
        (), [], (1,), [1], (1, 2), [1, None], (None,), ("a",), [b"a"], ((1,),), [[1], 2], (1, "a"), [2]]
-assert len(REP) == 45
+REP += [Decimal("0.1"), 0.1, Decimal(10 ** 16 + 1), 1e16, 10 ** 16 + 1]
+assert len(REP) == 50
 
 
 @st.composite
 def triple(draw, tier):
     p = draw(gen.pool(gen.value, 3, 7))
+    if draw(st.integers(0, 3)) == 0:
+        p.extend(draw(st.sampled_from(gen.NEAR)))
     # nested sequences sharing prefixes with pool members
     if draw(st.booleans()):
         base = draw(st.sampled_from(p))
